@@ -318,6 +318,8 @@ class Prop(PropBase):
              "per-client expected-response queues / written-value lists"]
     assumptions = [
         "Serializer.clear is never called (the statement says nothing about it)",
+        "the Serializer is assumed to pass requests and responses through in the cycle they execute (no internal buffering "
+        "of payloads): a client's request reaches the server, and a response its client, in the cycle of the call",
         "a response is reported stuck only after 2*ports+4 cycles in which the server offers it and all clients ask",
     ]
     search_space = "port counts, depths, request/response interleavings, server stall and latency patterns, client read patterns"
